@@ -20,7 +20,7 @@ from d42.utils import from_native
 
 from .. import e2
 from .. import model as M
-from ..codec import NAMED, src, unsrc
+from ..codec import NAMED, TAG_RED, src, unsrc
 from ..common import verdict
 from ..runner import Acc, parallel
 from ..values import ZOO, cp, missing_variants, perturb
@@ -29,7 +29,9 @@ LEAVES = [None, True, False, 0, 1, -7, 2 ** 70, 0.0, 1.5, 2.5e-12, "", "a", b"",
           M.FIX_DT, M.FIX_DATE, float("inf"), float("-inf"), float("nan"),
           # text that is not in Unicode normal form C (a base letter + combining mark, a
           # compatibility sign), a lone surrogate, NUL
-          "e\u0301", "\u212b\u2126", "\ud800", "a\x00b"]
+          "e\u0301", "\u212b\u2126", "\ud800", "a\x00b",
+          # a str-mixin enum member: a str (== "red") whose str() is 'Tag.RED'
+          TAG_RED]
 # keys of every hashable plain kind (a dict is plain data whatever it is keyed by)
 KEYS = [None, True, 0, -7, 1.5, "", "a b", b"k", (1, 2), M.FIX_UUID, M.FIX_DATE, M.FIX_DT, frozenset([1]),
         "e\u0301"]
